@@ -40,6 +40,7 @@ OPTSETS = {
     "finite-ev": (("finite",), "", True, False),
     "two-finite": (("two", "finite"), "", False, False),
     "finite-mixed": (("finite-mixed",), "", False, False),
+    "symmetry-finite": (("symmetry", "finite"), "", False, False),
     "k-finite": (("finite",), "k", False, False),
     "smallest": ((), "", False, True),
     "opaque": (("opaque",), "", False, False),
